@@ -14,19 +14,26 @@ from mpmath import mp, mpf
 mp.prec = 320
 EPSF = mpf(2) ** -53
 
-RULE = ("requests are drawn from VERIF_SEED plus fixed special families (coordinate axes, axes within 1e-15..1e-6 of +-z, "
-        "angles at multiples of pi/2, theta at and within 1e-12 of the poles); a case is non-trivial when the model answers "
-        "ok/err and is counted once per distinct (op, axis class, angle class, length decade, branch) key")
-CORR_ONLY = ["Angle: acos is applied on the comparison side (mpmath) to the model's cosine; only pairs at angles in [1e-3, pi-1e-3]",
-             "cos/sin/sqrt of libm are compared with mpmath values (320 bits) of the same double argument"]
-ASSUMPTIONS = ["libm cos/sin/sqrt/acos are accurate to a few ulp at the double arguments used",
-               "theorems take trigonometric values as pairs (c,s) with c*c+s*s=1 and sqrt as a function sq with sq(y)*sq(y)=y for y>=0"]
+RULE = ("requests are drawn from VERIF_SEED plus fixed special families (coordinate axes; tilts from +-z log-uniform over 5e-324..1e-1; "
+        "axis lengths over the whole double range 1e-323..1e300 incl. subnormal components, 1.7e308 along z, and lengths within "
+        "1e-10..5e-7 of one; angles at multiples of pi/2, theta at and within 1e-12 of the poles); a case is non-trivial when the model "
+        "answers ok/err and is counted once per distinct (op, axis class, angle class, length decade, branch) key")
+CORR_ONLY = ["Angle (an observation point, not part of the statement): acos is applied on the comparison side (mpmath) to the model's cosine; "
+             "only pairs at angles in [1e-3, pi-1e-3] and lengths 1e-6..1e6 (v1*v2 is an unscaled dot product; parallel pairs give NaN: observed, outside the property)",
+             "cos/sin/sqrt/hypot of libm are compared with mpmath values (320 bits) of the same double argument",
+             "Spherical_Coordinates about an axis whose unit-vector transverse length is below 2^-1000: only the property clauses (norm, polar angle, "
+             "handedness) are judged, the vector is not compared with the model (counted as excused): ev_x, ev_y are rounded to multiples of 2^-1074 "
+             "or to 0, which turns the azimuth origin of the frame — the property does not fix that origin",
+             "Norm() below 2^-1022 is compared with an absolute tolerance of 2^-1074 (representability of a subnormal result)"]
+ASSUMPTIONS = ["libm cos/sin/sqrt/hypot/acos are accurate to a few ulp at the double arguments used",
+               "theorems take trigonometric values as pairs (c,s) with c*c+s*s=1 and sqrt as a function sq that is the exact non-negative root at "
+               "the arguments the code passes (SqAt / NormAt); the power-of-two scaling of Vector::Norm (8a680df) is value-neutral (norm3_scaled_noop)"]
 TRUSTED = ["mpmath 1.3 (320-bit cos/sin/sqrt/acos) as the reference for transcendental values in the C16 comparator"]
 
-K_ROT = 96      # absolute, entries are O(1)              (calibrated: max observed 6.4 eps over 5 seeds, x16)
-K_SPH = 64      # relative to r
+K_ROT = 32      # absolute, entries are O(1)              (audit: worst 18.2 eps orthogonality, 12 det, 9.2 axis, 3 turn)
+K_SPH = 8       # relative to r                         (audit: worst 3.9 eps r)
 K_NORM = 16
-K_COMP = 256    # product of two computed rotations against a third
+K_COMP = 32     # product of two computed rotations against a third   (audit: worst 13.8 eps)
 
 
 # ---------------------------------------------------------------------------------------------
@@ -123,10 +130,25 @@ def sphere_point(rng):
             return v
 
 
+def axis_length(rng, k):
+    """length of a generated axis: the statement says 'every non-zero axis of any length' — the whole double range,
+    including lengths whose components are subnormal"""
+    c = k % 6
+    if c == 0:
+        return 1.0
+    if c in (1, 2):
+        return 10.0 ** rng.uniform(-6, 6)
+    if c == 3:
+        return 10.0 ** rng.uniform(-300, 300)
+    if c == 4:
+        return 10.0 ** (rng.uniform(150, 300) * rng.choice([-1, 1]))
+    return 10.0 ** rng.uniform(-323, -305)
+
+
 def rand_axis(rng, k):
     """(axis, class label)"""
     c = k % 10
-    L = 10.0 ** rng.uniform(-6, 6) if k % 3 else 1.0
+    L = axis_length(rng, rng.randrange(6))
     if c == 0:
         i = rng.randrange(3)
         v = [0.0, 0.0, 0.0]
@@ -149,6 +171,12 @@ def rand_axis(rng, k):
             v[2] = -1.0
         return [x * L for x in v], "lattice"
     v = sphere_point(rng)
+    if c == 9:
+        # length within 1e-10..5e-7 of one, but not one: 'any length' includes the almost-unit axes (a shortcut that
+        # skips the normalisation of 'unit' axes must compare exactly)
+        n0 = math.sqrt(sum(x * x for x in v))
+        d = rng.choice([1e-7, -1e-7, 3e-7, -3e-7, 4.9e-7, -4.9e-7, 1e-8, -1e-8, 1e-10, -1e-10])
+        return [x / n0 * (1.0 + d) for x in v], "nearunit"
     return [x * L for x in v], "generic"
 
 
@@ -164,7 +192,7 @@ def tilt_axis(rng, k):
     if k % 5 == 0:
         ph = rng.choice([0.0, math.pi / 2, math.pi, 3 * math.pi / 2, math.pi / 4])
     sgn = -1.0 if k % 2 else 1.0
-    L = 10.0 ** rng.uniform(-6, 6) if k % 3 else 1.0
+    L = axis_length(rng, rng.randrange(6))
     c, sn = math.cos(ph), math.sin(ph)
     if abs(c) < 1e-15:
         c = 0.0
@@ -259,7 +287,7 @@ def generate(tier, seed, ctx):
         R.append("c16.sphax %s %s %s %s %s %s" % (hx(r), hx(th), hx(ph), cs_tokens(th), cs_tokens(ph), v3(ax)))
     # exactly +-z with all lengths, and theta at the poles about generic axes
     for sg in (1.0, -1.0):
-        for L in (1.0, 1e-6, 1e6, 3.0, 0.1):
+        for L in (1.0, 1e-6, 1e6, 3.0, 0.1, 1e-300, 1e300, 1.7e308, 2.3e-308, 1e-320, 5e-324):
             for th in (0.0, 0.3, math.pi / 2, 2.5, math.pi):
                 ph = rng.uniform(0, 2 * math.pi)
                 R.append("c16.sphax %s %s %s %s %s %s" % (hx(2.0), hx(th), hx(ph), cs_tokens(th), cs_tokens(ph), v3([0.0, 0.0, sg * L])))
@@ -271,7 +299,7 @@ def generate(tier, seed, ctx):
         ph2 = ph1 + rng.choice([-1.0, 1.0]) * rng.uniform(0.1, 3.0)
         ax, cl = rand_axis(rng, g)
         if g % 5 < 2:      # exactly along -z / +z (the explicit branches), any length
-            ax = [0.0, 0.0, (-1.0 if g % 5 == 0 else 1.0) * 10.0 ** rng.uniform(-6, 6)]
+            ax = [0.0, 0.0, (-1.0 if g % 5 == 0 else 1.0) * axis_length(rng, rng.randrange(6))]
         for j, ph in enumerate((ph1, ph2)):
             R.append("c16.sphax %s %s %s %s %s %s" % (hx(r), hx(th), hx(ph), cs_tokens(th), cs_tokens(ph), v3(ax)))
             groups.setdefault(("hand", g), {})[j] = R[-1]
@@ -324,7 +352,7 @@ def generate(tier, seed, ctx):
     # --- Norm / Normalized / Normalize --------------------------------------------------------------------
     for k in range(600 if thorough else 150):
         n = rng.randint(1, 6) if k % 2 else 3
-        L = 10.0 ** rng.uniform(-6, 6)
+        L = axis_length(rng, rng.randrange(6))
         v = [L * rng.uniform(-1, 1) for _ in range(n)]
         if k % 7 == 0:
             v[rng.randrange(n)] = 0.0
@@ -351,10 +379,14 @@ def _angle_class(a):
 
 
 def _axis_class(ax):
-    n = math.sqrt(sum(x * x for x in ax))
-    if n == 0:
+    big = max(abs(x) for x in ax)
+    if big == 0:
         return ("zero",)
-    e = [x / n for x in ax]
+    m, ex = math.frexp(big)
+    sc = [math.ldexp(x, -ex) for x in ax]            # scaled by a power of two: no under/overflow of the squares
+    n0 = math.sqrt(sum(x * x for x in sc))
+    e = [x / n0 for x in sc]
+    n = big
     zeros = tuple(x == 0 for x in e)
     tilt = math.hypot(e[0], e[1])
     tcl = "on" if tilt == 0 else ("near" if tilt < 1e-5 else "off")
@@ -531,7 +563,8 @@ def compare(rq, impl, model, ctx):
         elif abs(dot(um, vm_) - mp.sqrt(dot(vm_, vm_))) > K_NORM * EPSF * mp.sqrt(dot(vm_, vm_)):
             out.append(fail("prop", "Normalized(): result is not parallel to the vector", ""))
         if not out:
-            if not close(nrm, mn, mn, K_NORM) or not all(close(x, m, 1, K_NORM) for x, m in zip(u1, mu)):
+            # a norm below 2^-1022 can only be returned to the nearest multiple of 2^-1074 (representability, not slack)
+            if not close(nrm, mn, mn, K_NORM, atol=Fraction(1, 2 ** 1074)) or not all(close(x, m, 1, K_NORM) for x, m in zip(u1, mu)):
                 out.append(fail("corr", "Norm/Normalized differs from the model", ""))
     return fs + out
 
